@@ -48,6 +48,29 @@ theorem dupOuter_zero {α : Type} [DecidableEq α] :
 theorem countDups_zero {α : Type} [DecidableEq α] {l : List α} (h : countDups l = 0) : l.Nodup :=
   dupOuter_zero l h
 
+/-! ### `find_pos`: the fuel of the `while(true)` loop suffices -/
+
+/-- every iteration of `find_pos` that does not `break` lowers `current_dups`: more than
+    `current_dups` iterations are never needed, the result does not depend on the fuel -/
+theorem posLoop_fuel (strs : List Bytes) (N : Nat) : ∀ (cur f g : Nat) (pos : List Nat) (b : Nat × Nat),
+    cur < f → cur < g → posLoop strs N f pos cur b = posLoop strs N g pos cur b := by
+  intro cur
+  induction cur using Nat.strongRecOn with
+  | ind cur ih =>
+    intro f g pos b hf hg
+    cases f with
+    | zero => omega
+    | succ f =>
+      cases g with
+      | zero => omega
+      | succ g =>
+        simp only [posLoop]
+        split
+        · rfl
+        · next hlt =>
+          have hlt' : (posRound strs pos (List.range N) b).2 < cur := by omega
+          exact ih _ hlt' f g _ _ (by omega) (by omega)
+
 /-! ### `find_remap` -/
 
 theorem remapFill_length : ∀ (hs : List Nat) (i : Nat) (r : List Nat),
